@@ -48,6 +48,7 @@ type vbGen struct {
 	maxEver uint64
 	uuid    uint64
 	ended   bool
+	sent    map[uint64]SEv // what the server has at each sequence number: a re-sent range shows the same events
 }
 
 const casBase = uint64(1700000000) * 1000000000
@@ -75,7 +76,7 @@ func GenRun(rng *rand.Rand, p SParams) *SHistory {
 		if g, ok := vbs[v]; ok {
 			return g
 		}
-		g := &vbGen{next: base + 1, uuid: uint64(rng.Int63n(1<<40)) + 1}
+		g := &vbGen{next: base + 1, uuid: uint64(rng.Int63n(1<<40)) + 1, sent: map[uint64]SEv{}}
 		vbs[v] = g
 		return g
 	}
@@ -268,6 +269,9 @@ func GenRun(rng *rand.Rand, p SParams) *SHistory {
 			add(p.WDeliver*wLive, func() {
 				v := live[rng.Intn(len(live))]
 				g := vb(v)
+				for g.sent[g.next].Kind == "hole" { // nothing exists at these sequence numbers, also when the range is sent again
+					g.next++
+				}
 				var ev SEv
 				r := rng.Float64()
 				switch {
@@ -279,9 +283,19 @@ func GenRun(rng *rand.Rand, p SParams) *SHistory {
 					}
 					ev = SEv{Kind: "mut", Item: &SItem{Seq: seq, Cas: casBase + uint64(rng.Intn(30))*1000000000, Key: []byte("late"), Rest: restID}}
 					restID++
+				case (!g.inSnap || g.next > g.snapEnd) && g.sent[g.next].Kind == "seqadv":
+					ev = g.sent[g.next] // sent again after a re-request
+					g.next = ev.Seq + 1
+					g.inSnap = false
 				case !g.inSnap || g.next > g.snapEnd:
-					if rng.Float64() < p.PSys/2 {
+					_, again := g.sent[g.next]
+					_, again1 := g.sent[g.next+1]
+					if !again && !again1 && rng.Float64() < p.PSys/2 {
 						ev = SEv{Kind: "seqadv", Seq: g.next + uint64(rng.Intn(2))}
+						g.sent[ev.Seq] = ev
+						if ev.Seq > g.next {
+							g.sent[g.next] = ev
+						}
 						g.next = ev.Seq + 1
 						g.inSnap = false
 						if ev.Seq > g.maxEver {
@@ -298,8 +312,19 @@ func GenRun(rng *rand.Rand, p SParams) *SHistory {
 						ev = SEv{Kind: "marker", S: s, E: e}
 						g.inSnap, g.snapEnd = true, e
 					}
+				case g.sent[g.next].Kind != "":
+					// the range is sent again (transient end, rollback, restart): the same event as before
+					ev = g.sent[g.next]
+					switch ev.Kind {
+					case "seqadv":
+						g.next = ev.Seq + 1
+						g.inSnap = false
+					default:
+						g.next++
+					}
 				case rng.Float64() < p.PSys:
 					ev = SEv{Kind: "sys", Sys: rng.Intn(6), Seq: g.next, Cid: uint32(8 + rng.Intn(3))}
+					g.sent[g.next] = ev
 					g.next++
 					if ev.Seq > g.maxEver {
 						g.maxEver = ev.Seq
@@ -316,12 +341,14 @@ func GenRun(rng *rand.Rand, p SParams) *SHistory {
 						cas = (*cfg.SkipUntil/1000000000)*1000000000 + uint64(rng.Intn(3))*500000000 - uint64(rng.Intn(2))*1000000000
 					}
 					ev = SEv{Kind: kind, Item: &SItem{Seq: g.next, Cas: cas, Cid: uint32(7 + rng.Intn(4)), Key: key, Rest: restID}}
+					g.sent[g.next] = ev
 					restID++
 					if ev.Item.Seq > g.maxEver {
 						g.maxEver = ev.Item.Seq
 					}
 					g.next++
-					if rng.Intn(12) == 0 { // the server skips sequence numbers (other collections)
+					if rng.Intn(12) == 0 && g.sent[g.next].Kind == "" { // the server skips sequence numbers (other collections)
+						g.sent[g.next] = SEv{Kind: "hole"}
 						g.next++
 					}
 				}
